@@ -571,6 +571,10 @@ class FiltersSet:
         for f in self.filters:
             if f["name"] != name:
                 continue
+            if self.__isdisabled(f["content"]):
+                # already disabled: do not wrap it a second time
+                f["enabled"] = False
+                return False
             ifcontrol.addchild(f["content"])
             f["content"] = ifcontrol
             f["enabled"] = False
